@@ -40,6 +40,19 @@ class VBase(BaseException):
 
 
 LOG = []
+LOG_CAP = 60000
+
+
+class Runaway(BaseException):
+    """The case's own programs are finite trees (at most a few hundred log entries).  A log that keeps growing means the
+    bridge runs something else than the case's functions (e.g. another function's body, in a cycle); stop at once instead
+    of filling memory until the 30 s alarm - the driver reports the case as one that could not be run."""
+
+
+def log_body(i):
+    if len(LOG) > LOG_CAP:
+        raise Runaway("more than %d log entries" % LOG_CAP)
+    LOG.append(["body", i, flag()])
 
 
 def mkval(v):
@@ -141,7 +154,7 @@ class Prog:
             self.declare_fn(ret["t"])
 
         def pxfn(*a):
-            LOG.append(["body", a[-1], flag()])
+            log_body(a[-1])
             if "c" in ret:
                 return ConstFuture(mkval(ret["c"]))
             t = ret["t"]
@@ -171,7 +184,7 @@ class Prog:
 
         if fn["kind"] == "plain":
             def f(*a):
-                LOG.append(["body", a[-1], flag()])
+                log_body(a[-1])
                 acc = []
                 try:
                     ret = prog.run_plain(prog.bodies[a[-1]], acc, a[-1])
@@ -183,7 +196,7 @@ class Prog:
                 return r
         else:
             def f(*a):
-                LOG.append(["body", a[-1], flag()])
+                log_body(a[-1])
                 acc = []
                 try:
                     ret = yield from prog.run(prog.bodies[a[-1]], acc, a[-1])
@@ -197,13 +210,15 @@ class Prog:
         afn = None
         if fn["afn"] == "native":
             async def afn(*a):
-                # the user's own coroutine function: same meaning as the body, written natively
-                LOG.append(["body", a[-1], flag()])
+                # the user's own coroutine function: same meaning as the body, written natively (run_async):
+                # `x = await g.asyncio(arg)` where the asynq body has `x = yield g.asynq(arg)`, the same plain
+                # synchronous calls `x = g(arg)`, try/except, raise, return.  It is NOT under AsyncioMode itself.
+                log_body(a[-1])
                 for _ in range(prog.delays[a[-1]]):
                     await asyncio.sleep(0)
                 acc = []
                 try:
-                    ret = prog.run_plain(prog.bodies[a[-1]], acc, a[-1])
+                    ret = await prog.run_async(prog.bodies[a[-1]], acc, a[-1])
                 except Exception as e:
                     LOG.append(["done", a[-1], {"Err": [exn_tree(e)]}])
                     raise
@@ -292,7 +307,53 @@ class Prog:
             elif "retlast" in st:
                 return (acc[-1] if acc else None,)  # return the last thing received / caught
             elif "sync" in st:
-                acc.append(self.sync_call(st["sync"]))
+                acc.append(self.sync_call(st["sync"], me))
+            else:
+                raise ValueError(st)
+        return None
+
+    async def run_async(self, stmts, acc, me):
+        """The same statement list as the body of a user-written `async def` (explicit asyncio_fn): a yield of a call
+        leaf is `await g.asyncio(arg)`; everything else is the same Python."""
+        for st in stmts:
+            if "y" in st:
+                s = st["y"]
+                node = s["t"] if "t" in s else s["px"]
+                LOG.append(["yield", me, st["site"]])
+                try:
+                    v = await self.fns[node["id"]].asyncio(node["id"])
+                except Exception as e:
+                    LOG.append(["resume", me, st["site"], {"Err": [exn_tree(e)]}, flag()])
+                    raise
+                LOG.append(["resume", me, st["site"], {"Ok": [treeval(v)]}, flag()])
+                acc.append(v)
+            elif "try" in st:
+                try:
+                    r = await self.run_async(st["try"], acc, me)
+                    if r is not None:
+                        return r
+                except Exception as e:
+                    code = exn_code(e)
+                    LOG.append(["caught", me, exn_tree(e)])
+                    if st.get("keep"):
+                        acc.append(e)
+                    else:
+                        acc.append({-1: code if code is not None else -999})
+                    r = await self.run_async(st["exc"], acc, me)
+                    if r is not None:
+                        return r
+            elif "push" in st:
+                acc.append(mkval(st["push"]))
+            elif "raise" in st:
+                raise VErr(st["raise"])
+            elif "ret" in st:
+                return (list(acc),)
+            elif "retv" in st:
+                return (mkval(st["retv"][0]),)
+            elif "retlast" in st:
+                return (acc[-1] if acc else None,)
+            elif "sync" in st:
+                acc.append(self.sync_call(st["sync"], me))
             else:
                 raise ValueError(st)
         return None
@@ -306,21 +367,23 @@ class Prog:
             return s.value
         raise AssertionError("a plain body must not yield")
 
-    def sync_call(self, s):
+    def sync_call(self, s, me=None):
+        """x = g(arg): a plain synchronous call made by activation `me` (None: the caller after the await).
+        Logged as ["sync", what-happened, me, callee id]."""
         node = s["t"] if "t" in s else s["px"]
         n0 = len(LOG)
         try:
             v = self.fns[node["id"]](node["id"])            # plain synchronous call
         except RuntimeError:
             if any(ev[0] == "body" for ev in LOG[n0:]):
-                LOG.append(["sync", "SRan"])
+                LOG.append(["sync", "SRan", me, node["id"]])
             else:
-                LOG.append(["sync", "SRefused"])
+                LOG.append(["sync", "SRefused", me, node["id"]])
             raise
         except Exception:
-            LOG.append(["sync", "SRan" if any(ev[0] == "body" for ev in LOG[n0:]) else "SOther"])
+            LOG.append(["sync", "SRan" if any(ev[0] == "body" for ev in LOG[n0:]) else "SOther", me, node["id"]])
             raise
-        LOG.append(["sync", "SRan" if any(ev[0] == "body" for ev in LOG[n0:]) else "SAllowed"])
+        LOG.append(["sync", "SRan" if any(ev[0] == "body" for ev in LOG[n0:]) else "SAllowed", me, node["id"]])
         return v
 
 
